@@ -10,7 +10,8 @@ ID = "C14"
 CASES = {"quick": 2400, "thorough": 40000}
 MIN_NONTRIVIAL = {"quick": 900, "thorough": 15000}
 REQUIRED = ["finite real >=0 (never NaN)", "d^2 == k(F,F)+k(G,G)-2k(F,G)", "reorder=>0", "symmetric", "triangle",
-            "diagonal points ignored", "diagonal translation", "d <= W1/(4 sigma sqrt(pi))"]
+            "diagonal points ignored", "diagonal translation", "d <= W1/(4 sigma sqrt(pi))",
+            "integer / list forms agree with float arrays in both argument positions"]
 RULE = ("pairs/triples of finite diagrams, 0-40 points (quick <=25; 4% of cases up to 90): identical multisets in different order, copies with "
         "1e-9..1e-3 jitter, independent, disjoint supports, empty vs non-empty, near-diagonal points; sigma in "
         "{0.01,0.1,0.4,1,10}; scales 1e-2..1e2; array/list/int forms. non-trivial = both diagrams have >=2 points; "
@@ -96,6 +97,9 @@ def run_case(ctx, k, rng):
     def d(P, Q, s=sigma):
         ctx.ran()
         return heat(P, Q, s)
+
+    def fin(x):
+        return isinstance(x, (float, np.floating)) and math.isfinite(x)
     try:
         with ctx.fp_sensor() as fs:
             v = d(F, G)
@@ -112,8 +116,23 @@ def run_case(ctx, k, rng):
     if style == "reorder":
         ctx.check("reorder=>0", v * v <= tol2, got=v, tol2=tol2)
 
-    def fin(x):
-        return isinstance(x, (float, np.floating)) and math.isfinite(x)
+    # representation: an integer-valued diagram as int array / list of python ints, in either argument position, mixed with a
+    # float diagram, must give the value of the equal-valued float arrays
+    if rng.random() < 0.2 and len(F) and len(G):
+        Fi = np.round(F / scale * 3); Fi[:, 1] = np.maximum(Fi[:, 1], Fi[:, 0])
+        Gf = G / scale * 3
+        forms = [Fi.astype(np.int64), Fi.astype(int).tolist()][int(rng.integers(0, 2))]
+        sg = sigma / (scale ** 2) * 9 if sigma < 1e-3 or sigma > 1e3 else sigma
+        ctx.set_payload({"dgm1": forms, "dgm2": Gf, "sigma": sg})
+        try:
+            r2m, t2m = ref_d2(Fi, Gf, sg)
+            a1, a2, a3 = d(forms, Gf, sg), d(Gf, forms, sg), d(Fi, Gf, sg)
+            okm = all(fin(x) and abs(float(x) ** 2 - r2m) <= t2m for x in (a1, a2, a3))
+            ctx.check("integer / list forms agree with float arrays in both argument positions", okm, int_first=a1, int_second=a2,
+                      floats=a3, ref_sq=r2m)
+        except Exception as e:
+            ctx.exception("integer / list forms agree with float arrays in both argument positions", e)
+        ctx.set_payload({"dgm1": F, "dgm2": G, "sigma": sigma})
     try:
         sub = int(rng.integers(0, 5))
         if sub == 0:
